@@ -89,6 +89,8 @@ impl<S: BuildHasher + Clone + 'static + Send> AsyncLFUPolicy<S> {
             return Ok(());
         }
 
+        #[cfg(transparencies_stretto_verif)]
+        crate::verif::yield_point("polclose:before_stop");
         // block until the Processor thread returns.
         self.stop_tx
             .send(())
@@ -123,9 +125,13 @@ impl<S: BuildHasher + Clone + 'static + Send> PolicyProcessor<S> {
     fn spawn(self, spawner: Box<dyn Fn(BoxFuture<'static, ()>) + Send + Sync>) {
         (spawner)(Box::pin(async move {
             loop {
+                #[cfg(transparencies_stretto_verif)]
+                crate::verif::yield_point("pol:loop");
                 select! {
                     items = self.items_rx.recv().fuse() => self.handle_items(items),
                     _ = self.stop_rx.recv().fuse() => {
+                        #[cfg(transparencies_stretto_verif)]
+                        crate::verif::note("pol:exit", &[]);
                         drop(self);
                         return;
                     },
@@ -139,6 +145,8 @@ impl<S: BuildHasher + Clone + 'static + Send> PolicyProcessor<S> {
     fn handle_items(&self, items: Result<Vec<u64>, RecvError>) {
         match items {
             Ok(items) => {
+                #[cfg(transparencies_stretto_verif)]
+                crate::verif::note("pol:arm:items", &[items.len() as u64]);
                 let mut inner = self.inner.lock();
                 inner.admit.increments(items);
             }
